@@ -32,7 +32,7 @@ def extra(c):
                 out.append(k)
     for _ in range(1200 if c.thorough else 200):          # user-supplied sampling functions (FunctionRFA)
         xs, ys = lattice_series(rng, 2, rng.choice([4, 9, 30]))
-        out.append({"fn": "rfa", "strategy": rng.choice(["FunctionConst", "FunctionInterp", "FunctionScalar", "FunctionNorm"]),
+        out.append({"fn": "rfa", "strategy": rng.choice(["FunctionConst", "FunctionInterp", "FunctionScalar", "FunctionNorm", "FunctionSubclass"]),
                     "x": [R(v) for v in xs], "y": [R(v) for v in ys], "n": rng.choice([2, 3, 5, 8, 49, 64]), "a": -1, "alpha": R(1), "beta": R(0),
                     "exp": R(1), "smooth": 1, "exact": False, "container": rng.choice(["array", "list", "int"])})
     for _ in range(400 if c.thorough else 80):            # rejects: n below 2 (integer and float)
